@@ -3,12 +3,14 @@ package main
 import (
 	"context"
 	"encoding/json"
+	"errors"
 	"flag"
 	"fmt"
 	"os"
 	"time"
 
 	"github.com/arloliu/go-secs/v2/hsms"
+	"github.com/arloliu/go-secs/v2/secs2"
 
 	"verif/harness/lab"
 	"verif/harness/peerkit"
@@ -35,9 +37,9 @@ type staleLine struct {
 	Gen2Works    bool            `json:"gen2_round_trip"`
 	Fault        string          `json:"fault"`
 	// t = "stale_t7": the NotSelected dwell timer of generation N against generation N+1
-	T7Ms     int `json:"t7_ms"`
-	OffMs    int `json:"off_ms"`    // generation N was ended by the peer at T7 + off
-	Dwell2Us int `json:"dwell2_us"` // peer's view: connect of generation N+1 started -> EOF from the library
+	T7Ms     int  `json:"t7_ms"`
+	OffMs    int  `json:"off_ms"`    // generation N was ended by the peer at T7 + off
+	Dwell2Us int  `json:"dwell2_us"` // peer's view: connect of generation N+1 started -> EOF from the library
 	Dropped2 bool `json:"dropped2"`  // generation N+1 was ended by the library (its own T7) within the observation window
 }
 
@@ -166,13 +168,33 @@ func staleScenario(passive bool, drop string) *staleLine {
 		}
 		return line
 	}
-	// (1) wedge the receive goroutine of generation 1 inside the data handler
-	p1.Send(peerkit.Data(0x0102, 7, 99, false, 0x51000001, asciiBody("wedge")))
+	if drop == "writer" {
+		// (1') a synchronous sender of generation 1 is stuck inside the socket write (the peer takes no bytes); the write
+		// fails only after generation 2 is Selected. The caller's context is alive the whole time.
+		conns := cut.Net.Conns()
+		if len(conns) == 0 {
+			line.Fault = "no library socket"
+			return line
+		}
+		wgate := func(int) error {
+			select {
+			case wedged <- struct{}{}:
+			default:
+			}
+			<-gate
+			return errors.New("vh: late write failure of a dead generation")
+		}
+		conns[len(conns)-1].WriteGate.Store(&wgate)
+		go func() { _, _ = cut.Conn.SendDataMessage(context.Background(), 6, 11, false, secs2.A("stuck")) }()
+	} else {
+		// (1) wedge the receive goroutine of generation 1 inside the data handler
+		p1.Send(peerkit.Data(0x0102, 7, 99, false, 0x51000001, asciiBody("wedge")))
+	}
 	select {
 	case <-wedged:
 		line.Wedged = true
 	case <-time.After(2 * time.Second):
-		line.Fault = "the handler was never invoked"
+		line.Fault = "the handler / the socket write was never entered"
 		return line
 	}
 	// (2) lose generation 1 involuntarily
@@ -181,18 +203,20 @@ func staleScenario(passive bool, drop string) *staleLine {
 		for i := 0; i < 40 && cut.State() == "S"; i++ {
 			time.Sleep(10 * time.Millisecond)
 		}
+	case "writer": // the peer resets the connection: the receive loop reports the loss
+		p1.Reset()
 	case "peer-reset": // a later write of the library fails
 		p1.Reset()
 		go func() { _ = cut.Conn.SendDataMessageAsync(context.Background(), 6, 11, false, nil) }()
 	}
 	p1.Close()
-	if !cut.WaitState("NC", 3*time.Second) && drop == "linktest" {
+	if drop != "writer" && !cut.WaitState("NC", 3*time.Second) && drop == "linktest" {
 		line.Fault = "generation 1 was never dropped"
 		return line
 	}
 	// (3) generation 2 comes up while the straggler is still wedged
 	var p2 *peerkit.PeerConn
-	for try := 0; try < 3 && p2 == nil; try++ {
+	for try := 0; try < 6 && p2 == nil; try++ {
 		line.Fault = ""
 		p, ok := establish()
 		if ok {
@@ -258,6 +282,7 @@ func runStale(args []string) int {
 	for i := 0; i < *reps; i++ {
 		for _, passive := range []bool{true, false} {
 			w.Emit(staleScenario(passive, "linktest"))
+			w.Emit(staleScenario(passive, "writer"))
 		}
 		for _, off := range []int{-9, -6, -4, -2} {
 			w.Emit(staleT7Scenario(off))
